@@ -147,7 +147,7 @@ def _nth_line_match(text, n, rx, what):
     raise ExtractError('anchor not found (%s): #%d /%s/' % (what, n, rx))
 
 
-def build_item(item, tmpl_path):
+def build_item(item, tmpl_path, canary=False):
     """returns (segments, info)"""
     spec = item['spec']
     file_part, _, path_part = spec.partition('::')
@@ -304,6 +304,17 @@ def build_item(item, tmpl_path):
         else:
             raise ExtractError('%s:%d: unknown directive %s' % (tmpl_path, d['line'], kw))
 
+    if canary and bo_rel is not None:
+        for d in item['dirs']:
+            words = d['d'].split()
+            txt = '\n'.join(d['text'])
+            if words[0] == 'sig' and re.search(r'\brequires\b', txt):
+                edits.append((bo_rel + 1, bo_rel + 1, ' proof { assert(false); } /*CANARY:pre:%s*/\n' % what, 'ins',
+                              {'tline': d['line'], 'dir': 'canary'}))
+            if words[0] in ('loop', 'forloop') and re.search(r'\binvariant\b', txt):
+                ks, kword, lbo = get_loops()[int(words[1]) - 1]
+                edits.append((lbo + 1, lbo + 1, ' proof { assert(false); } /*CANARY:inv%s:%s*/\n' % (words[1], what), 'ins',
+                              {'tline': d['line'], 'dir': 'canary'}))
     # order edits; insertions at the same point keep template order
     edits_sorted = sorted(enumerate(edits), key=lambda t: (t[1][0], 0 if t[1][0] != t[1][1] else 1, t[0]))
     # region / rewrite replacing a range must not overlap others
@@ -337,7 +348,7 @@ def build_item(item, tmpl_path):
     return segs, info, text, first_line
 
 
-def assemble(tmpl_path, out_path):
+def assemble(tmpl_path, out_path, canary=False):
     parts = parse_template(tmpl_path)
     out_lines_meta = []  # per output line: dict
     out_text = []
@@ -357,7 +368,7 @@ def assemble(tmpl_path, out_path):
         if kind == 'text':
             runs.append((payload + '\n', {'k': 'tmpl', 'tline': lineno}))
         else:
-            segs, info, text, first_line = build_item(payload, tmpl_path)
+            segs, info, text, first_line = build_item(payload, tmpl_path, canary)
             idx = len(items)
             items.append(info)
             for sg in segs:
@@ -416,7 +427,12 @@ def assemble(tmpl_path, out_path):
     os.makedirs(os.path.dirname(out_path), exist_ok=True)
     with open(out_path, 'w', encoding='utf-8') as f:
         f.write(full)
-    meta = {'template': tmpl_path, 'out': out_path, 'items': items, 'linemap': linemap}
+    canary_lines = []
+    for li, ln in enumerate(full.split('\n')):
+        m = re.search(r'/\*CANARY:([^*]*)\*/', ln)
+        if m:
+            canary_lines.append({'line': li + 1, 'what': m.group(1)})
+    meta = {'template': tmpl_path, 'out': out_path, 'items': items, 'linemap': linemap, 'canary_lines': canary_lines}
     with open(out_path + '.map.json', 'w') as f:
         json.dump(meta, f)
     return meta
